@@ -57,6 +57,8 @@ def scenarios(tier, seed):
     for m in ["RK45CK", "DOPRI45"] + (["RK87", "AHE"] if thorough else []):
         for (a, b) in ((0.0, 1.0), (0.0, -1.0)):
             for tol in (1e-5, 1e-8):
+                if m == "AHE" and tol < 1e-6:
+                    continue      # second order pair: tens of thousands of steps, beyond the monitor's event budget
                 scs.append(gen.base(m, a, b, 0.2, rtol=tol, atol=tol, problem="steeplate", y0=[1.0], budget=1000000))
     # dtypes
     for dt_ in ("float32", "longdouble"):
@@ -95,7 +97,8 @@ def check(run, replay=None):
         commits = sum(1 for e in tr["events"] if e["e"] == "Counter" and e["new"] == e["old"] + 1)
         if commits >= 2 and not (sc["t0"] == 0.0 and sc["tf"] > 0 and len(sc["ops"]) == 1):
             run.nontrivial.add((tr["family"], sc["tf"] > sc["t0"], sc["t0"] < 0, sc["tf"] < 0, len(sc["ops"]), sc.get("dtype")))
-    run.sample({"scenario": scs[1], "trace_head": traces[1]["events"][:12]})
+    k = min(1, len(scs) - 1)
+    run.sample({"scenario": scs[k], "trace_head": traces[k]["events"][:12]})
     odecore.judge_traces(run, scs, traces, PREFIX)
     run.assumptions += ["the sensor's interning is exact (fractions.Fraction); ranks preserve order and equality",
                         "'a few rounding units' = UlpFew = 4 ulp of the working dtype (spec/Bounds.tla)",
